@@ -264,12 +264,36 @@ def plan(prop, tier, seed, known):
         for i in range(n):
             jobs.append(seq_job("dirs%d" % i, seed * 100 + i, "dirs,names", 4 if q else 8, 250 if q else 400, av))
         jobs.append(probe_job(prop, av))
+    elif prop == "C04":
+        n = 5 if q else 40
+        for i in range(n):
+            jobs.append(seq_job("struct%d" % i, seed * 100 + i, "dirs,names,mix,many,data", 5 if q else 10, 200 if q else 400, av,
+                                disk=8000, extra=["-snapeach", "5"]))
+        jobs.append(probe_job(prop, av))
+    elif prop == "C05":
+        n = 5 if q else 40
+        for i in range(n):
+            jobs.append(seq_job("reclaim%d" % i, seed * 100 + i, "data,recycle,dirs,mix", 4 if q else 8, 200 if q else 400, av,
+                                disk=8000, extra=["-snapeach", "7", "-deleteall"]))
+        jobs.append(probe_job(prop, av))
+    elif prop == "C10":
+        n = 5 if q else 40
+        for i in range(n):
+            jobs.append(seq_job("restart%d" % i, seed * 100 + i, "many,longnames,mix,names,data", 4 if q else 8, 250 if q else 500, av,
+                                disk=12000, dumpeach=40, extra=["-snapeach", "10"]))
+        jobs.append(probe_job(prop, av))
+    elif prop == "C09":
+        n = 5 if q else 40
+        for i in range(n):
+            jobs.append(seq_job("full%d" % i, seed * 100 + i, "full", 4 if q else 8, 150 if q else 300, av,
+                                dumpeach=25, extra=["-snapeach", "1", "-disks", "1600,1700,1900,2300"]))
+        jobs.append(probe_job(prop, av))
     else:
         raise Infra("no plan for " + prop)
     return jobs
 
 
-LEVELS = {"C02": "model_checking", "C08": "model_checking", "C12": "model_checking", "C13": "model_checking"}
+LEVELS = {}
 
 
 def tags_of(rule):
